@@ -719,8 +719,8 @@ static void orc_check(Orc& O, const char* dom, const char* op, const TypeInfo& t
   g_in_call = false;
   if (g_op) g_op->side = 4;
   int hc = g_hcalls, hco = g_hcode;
-  int usable = ti.ok ? (ti.ok(hx) > 0) : 1;
-  if (!cxx_ok) usable = 1;
+  // (when the C++ result fails its own OK() the library has corrupted the object: do not touch the C one either)
+  int usable = (cxx_ok && ti.ok) ? (ti.ok(hx) > 0) : 1;
   bool same = true; std::string why;
   if (cxx == "ok") {
     if (r < 0 || esc != "-" || hc != 0) { same = false; why = "c_failed"; }
